@@ -360,7 +360,10 @@ Inductive case :=
   (* two overlapping resolutions through the full pipeline: interleaved steps with their clock
      brackets; observed: stored delegations, both answer entries, servers asked per resolution *)
 | CaseRace (steps : list rstep) (delegs : list (zone * option Z)) (entries : list (N * option (Z * Z * option Z)))
-           (asked : list (N * list N))
+           (asked : list (N * list N)) (t4 : Z) (ghost : bool)
+  (* ([t4], [ghost]: afterwards the parent withdraws the zone, the clock moves past the lease the answers were learned
+     through, and resolution 1's question is asked again at t4: whether it was served the old child's data or the old
+     child was asked) *)
   (* DNSSEC-on pipeline against the repository's signed hermetic namespace: referral NS / DS TTLs (s),
      brackets of the first tree [t0,t1] and of a second one through the cached delegation [t2,t3],
      stored delegation expiry, the entries the trees admitted (answer, denial, DNSKEY, DS), then after the
@@ -663,12 +666,19 @@ Definition check_case (c : case) : bool :=
       (* the depth budget stops the uncached branch before rs is moved, and a rejected or aborted
          call leaves rs as it was: rs is compared after the cached branch only *)
       (if (outcome =? 1)%N then cut_between (rs_cut_of lo) rcut (rs_cut_of hi) else true)
-  | CaseRace steps delegs entries asked =>
+  | CaseRace steps delegs entries asked t4 ghost =>
       let '(lo, alo) := race_walk false st_init steps [] in
       let '(hi, ahi) := race_walk true st_init steps [] in
       forallb (fun ze => obetween (deleg_exp lo (fst ze)) (snd ze) (deleg_exp hi (fst ze))) delegs &&
       forallb (fun ke => entry_between (entry_view lo (fst ke)) (snd ke) (entry_view hi (fst ke))) entries &&
-      forallb (fun ia => nlist_eqb (asked_get (fst ia) alo) (snd ia) && nlist_eqb (asked_get (fst ia) ahi) (snd ia)) asked
+      forallb (fun ia => nlist_eqb (asked_get (fst ia) alo) (snd ia) && nlist_eqb (asked_get (fst ia) ahi) (snd ia)) asked &&
+      (* once every delegation below the top one and resolution 1's entry have lapsed in the model, the repeated
+         question is not served from the old child *)
+      (if forallb (fun ze => match fst ze with
+                             | [_] => true
+                             | z => ole (deleg_exp hi z) t4
+                             end) delegs && entry_dead hi 1%N t4
+       then negb ghost else true)
   | CaseSec ns ds t0 t1 t2 t3 deleg entries dttl derived t4 nx child_asked old_denial =>
       let z := [1%N] in let q := [1%N; 2%N] in
       let tree t := run code_fx [ASeed 0 0 q false t; ARefer 0 (mk_ref z 1 true ns (Some ds) true t false t [] false true true t); AStore 0 1 0 t] st_init in
@@ -834,6 +844,12 @@ Definition spec_case (c : case) : bool :=
                         match rcut, pre with
                         | Some (m, _), Some (e, _) => (m <=? lim) && (m <=? e)   (* the descent keeps the shorter deadline *)
                         | _, _ => false
+                        end &&
+                        (* ... and so does the request tree: whatever this descent obtains from the cached servers is
+                           admitted under the tree's cut, and was learned through the cached delegation *)
+                        match mcut, pre with
+                        | Some (m, _), Some (e, _) => (m <=? lim) && (m <=? e)
+                        | _, _ => false
                         end
         else
           match stored with
@@ -842,7 +858,7 @@ Definition spec_case (c : case) : bool :=
           end &&
           match mcut with Some (m, _) => m <=? lim | None => false end &&
           true
-  | CaseRace steps delegs entries asked =>
+  | CaseRace steps delegs entries asked t4 ghost =>
       (* whichever way the two resolutions interleave: a stored delegation ends within SOME referral the
          parent side issued for it (observed no later than that step's t1, TTL capped at 12 h), and an
          admitted answer ends within such a bound for EVERY zone its resolution was referred through *)
@@ -872,7 +888,47 @@ Definition spec_case (c : case) : bool :=
                             | None => true
                             end
                         | _ => true
-                        end) steps
+                        end) steps &&
+      (* ... an admitted answer does not outlive the delegation it was obtained through: for every zone its resolution
+         was referred to, the stored delegation - if it was running when the answer was admitted - ends no earlier than
+         the answer does (the cached branch descends through the OTHER resolution's lease, which may be the shorter) *)
+      forallb (fun p => match rp_act p with
+                        | LStore key _ =>
+                            match assoc_entry key entries with
+                            | Some x =>
+                                forallb (fun p' => if (rp_id p' =? rp_id p)%N then
+                                                     match rp_act p' with
+                                                     | LRefer z _ _ _ _ =>
+                                                         match find (fun ze => zone_eqb (fst ze) z) delegs with
+                                                         | Some (_, Some e) => let '(sx, _, _) := x in if sx <? e then entry_end x <=? e else true
+                                                         | _ => true
+                                                         end
+                                                     | _ => true
+                                                     end
+                                                   else true) steps
+                            | None => true
+                            end
+                        | _ => true
+                        end) steps &&
+      (* and once the parent has re-pointed / withdrawn the zone and every lease it granted for the first (old) server
+         set has run out, nothing of the old servers is served or asked *)
+      (let old := find (fun p => match rp_act p with LRefer (_ :: _ :: _) _ _ _ _ => true | _ => false end) steps in
+       match old with
+       | Some p0 =>
+           match rp_act p0 with
+           | LRefer z0 srv0 _ _ _ =>
+               if forallb (fun p => match rp_act p with
+                                    | LRefer z srv _ ns ds =>
+                                        if zone_eqb z z0 && (srv =? srv0)%N
+                                        then rp_t1 p + Z.min (match ds with Some d => Z.min ns d | None => ns end * 1000000000) twelve_hours <=? t4
+                                        else true
+                                    | _ => true
+                                    end) steps
+               then negb ghost else true
+           | _ => true
+           end
+       | None => true
+       end)
   | CaseSec ns ds t0 t1 t2 t3 deleg entries dttl derived t4 nx child_asked old_denial =>
       (* ... and what the derived denial stores keep of the zone's signed denial ends within the lease as well,
          and within what the proof's own records allow; after the lease nothing of it is served *)
